@@ -22,7 +22,9 @@ MUTANTS = [
     # ---- C01
     ('C01', 'supp/nast.py', r"        for df in node\.args\.defaults:\n            self\.visit\(df\)\n", "", 'C01-R1'),
     ('C01', 'supp/nast.py', r"self\.make_flow\('for-else', \[cur, body\]\)", "self.make_flow('for-else', [cur])", 'C01-R'),
-    ('C01', 'supp/nast.py', r"fh = self\.make_flow\('except', \[cur, body\]\)", "fh = self.make_flow('except', [cur])", 'C01-R5'),
+    ('C01', 'supp/nast.py', r"matching = \[cur, body\]", "matching = [cur]", 'C01-R5'),
+    ('C01', 'supp/nast.py', r"                matching = \[fh\]\n", "", 'C01-R5'),      # a later clause no longer sees the type of an earlier one
+    ('C03', 'supp/nast.py', r"            fh = self\.make_flow\('except-body', \[fh\]\)\n", "", 'C03-R1'),     # target and body of a clause leak into the next clause
     ('C01', 'supp/nast.py', r"(self\.flow = self\.make_flow\('join', \[body, orelse\]\))\n        self\.flow\.scope\.flow = self\.flow", r"\1", 'C01-R5'),
     ('C01', 'supp/scope.py', r"            self\.scope\.locals\.add\(name\.name\)\n            insert_loc\(self\._names, name\)", "            self.scope.locals.add(name.name)", 'C01-R2'),
     ('C01', 'supp/nast.py', r"            self\.flow = self\.visit_in_flow\(node\.finalbody, self\.flow\)\n            self\.flow\.scope\.flow = self\.flow", "            self.visit_in_flow(node.finalbody, self.flow)", 'C01-R5'),
@@ -197,6 +199,8 @@ MUTANTS = [
     ('C16', 'supp/remote.py', r"dumps\(\('close', \(\), \{\}\)\)", "dumps(('quit', (), {}))", 'C16-R5'),
     ('C16', 'supp/remote.py', r"dumps\(\('close', \(\), \{\}\)\)", "dumps(('close', (), {}), 2)", 'C16-R4'),
     ('C16', 'supp/remote.py', r"            if hasattr\(self, 'conn'\):\n                return\n\n            self\.prepare_thread = Thread", "            self.prepare_thread = Thread", 'C16-R3'),
+    ('C16', 'supp/remote.py', r"            self\.prepare_thread\.start\(\)", "            self.prepare_thread.daemon = True\n            self.prepare_thread.start()", 'C16-R7'),
+    ('C16', 'supp/remote.py', r"            self\.prepare_thread\.start\(\)", "            self.prepare_thread.setDaemon(True)\n            self.prepare_thread.start()", 'C16-R7'),
     # ---- C17
     ('C17', 'supp/evaluator.py', r"for n in node\.valid_names:", "for n in set(node.valid_names):", 'C17-R1'),
     ('C17', 'supp/name.py', r"sorted\(set\(allnames\), key=lambda n: n\.location\)", "list(set(allnames))", 'C17-R'),
